@@ -364,6 +364,86 @@ func Drive(w *ev.Writer, o Opts) error {
 	return nil
 }
 
+// DriveSessions (C->S for spec/MsgHashSeq.tla): random sessions over messages and over the transactions of block-5 / block-2
+func DriveSessions(w *ev.Writer, o Opts) error {
+	if o.Repo == "" {
+		o.Repo = repo()
+	}
+	r := rand.New(rand.NewSource(o.Seed*15485863 + int64(o.Shard)*32452843 + 5))
+	pool, err := sessionTxPool(o.Repo)
+	if err != nil {
+		return err
+	}
+	n := 6
+	if o.thorough() {
+		n = 60
+	}
+	for i := 0; i < n; i++ {
+		for _, kind := range []string{"msg", "tx"} {
+			s, err := randomSession(kind, r, pool)
+			if err != nil {
+				return err
+			}
+			s.run(w, ev.M{"origin": "random"})
+		}
+	}
+	w.Emit(ev.M{"k": "End", "events": w.N})
+	return nil
+}
+
+func sessionTxPool(repoDir string) (func() ([]*boc.Cell, error), error) {
+	files, err := blockFiles(repoDir)
+	if err != nil {
+		return nil, err
+	}
+	for _, f := range files {
+		name, data, err := readBlock(f)
+		if err != nil {
+			return nil, err
+		}
+		if name == "block-5" {
+			return blockTxPool(data), nil
+		}
+	}
+	return nil, fmt.Errorf("block-5 not found")
+}
+
+// ReplaySessions (S->C): every behaviour TLC enumerated, once on message cells and once on transaction cells
+func ReplaySessions(in string, w *ev.Writer, seed int64) error {
+	f, err := os.Open(in)
+	if err != nil {
+		return err
+	}
+	defer f.Close()
+	pool, err := sessionTxPool(repo())
+	if err != nil {
+		return err
+	}
+	sc := bufio.NewScanner(f)
+	sc.Buffer(make([]byte, 1<<20), 1<<26)
+	n := 0
+	for sc.Scan() {
+		var v struct {
+			Steps []step `json:"steps"`
+			Vec   int    `json:"vec"`
+		}
+		if err := json.Unmarshal(sc.Bytes(), &v); err != nil {
+			return fmt.Errorf("vector %d: %w", n, err)
+		}
+		n++
+		r := rand.New(rand.NewSource(seed*2750159 + int64(v.Vec)))
+		for _, kind := range []string{"msg", "tx"} {
+			cs, err := sessionCells(kind, 2, r, pool)
+			if err != nil {
+				return err
+			}
+			(&session{kind: kind, cells: cs, nd: 2, steps: v.Steps}).run(w, ev.M{"origin": "gen", "vec": v.Vec})
+		}
+	}
+	w.Emit(ev.M{"k": "End", "events": n})
+	return sc.Err()
+}
+
 // ------------------------------------------------------------------------------------------------ Replay (S->C)
 
 type vector struct {
